@@ -1,4 +1,7 @@
 mod c01;
+mod c02;
+mod c04;
+mod coin;
 mod common;
 mod desc;
 mod gen;
@@ -14,6 +17,8 @@ fn main() {
     let mut run = vf_core::Run::new(&args, level);
     match args.property.as_str() {
         "C01" => c01::run(&mut run),
+        "C02" => c02::run(&mut run),
+        "C04" => c04::run(&mut run),
         other => {
             eprintln!("vf-stark does not serve {other} yet");
             std::process::exit(2);
